@@ -514,6 +514,37 @@ class freshness_tz:
         return res
 
 
+def _dst_witnesses(case, model):
+    """real zones and bases around a real offset change, for a counter-model over abstract zones"""
+    import pytz
+
+    out = []
+    n = 7 if case["unit"] == "day" else 5
+    half = _dt.timedelta(days=3) if case["unit"] == "day" else _dt.timedelta(hours=2)
+    pre = "b" if case["base"] == "naive" else "clock"
+    for year in (2021, 1987):
+        for zi, zname in enumerate(CATALOGUE_PYTZ):
+            z = pytz.timezone(zname)
+            for t in getattr(z, "_utc_transition_times", []):
+                if t.year != year:
+                    continue
+                wall = pytz.utc.localize(t).astimezone(z).replace(tzinfo=None)
+                if case["base"] == "clock":
+                    wall = t  # the clock is given in UTC
+                b = wall - half if case["dir"] == "in" else wall + half
+                b = b.replace(minute=30, second=0, microsecond=0)
+                vals = dict(model)
+                vals.update({"idx_ZoneA": zi, "idx_ZoneB": (zi + 3) % len(CATALOGUE_PYTZ), "n0": n,
+                             pre + "_y": b.year, pre + "_m": b.month, pre + "_d": b.day,
+                             pre + "_H": b.hour, pre + "_M": b.minute, pre + "_S": 0,
+                             pre + "_us": 0})
+                out.append(vals)
+    return out
+
+
+freshness_tz.witnesses = staticmethod(_dst_witnesses)
+
+
 def _as_naive(wall_us):
     """a naive datetime-like carrying a wall clock (dual use)"""
     if isinstance(wall_us, int):
@@ -552,3 +583,164 @@ def _install_clock(inp, clock_utc):
 
 
 CONTRACTS += [freshness_tz]
+
+
+class tz_name_resolution:
+    """utils.get_timezone_from_tz_string (shared by the timestamp parser, localize_timezone,
+    apply_timezone_from_settings and the relative parser): a tz-database key resolves to that
+    database zone (so 'Etc/GMT+3' is UTC-3, whatever its name looks like); any other string the
+    library's own table lists resolves to a fixed zone with exactly the written / listed offset;
+    a string neither knows raises UnknownTimeZoneError.  Decided by evaluation over the whole finite
+    domain on this run: every pytz.all_timezones key, every offset the table supports in every
+    accepted spelling, every abbreviation of the table."""
+
+    name = "utils.get_timezone_from_tz_string/resolution"
+    func = "dateparser.utils.get_timezone_from_tz_string"
+    props = ["C12", "C01", "C11"]
+    concrete_samples = 1
+    PARTS = 4
+
+    @staticmethod
+    def cases():
+        return [dict(domain=d, part=i) for d in ("tzdb", "offsets", "abbreviations")
+                for i in range(tz_name_resolution.PARTS)] + [dict(domain="unknown", part=0)]
+
+    @staticmethod
+    def setup(inp, case):
+        import re
+
+        import pytz
+
+        from dateparser.timezones import timezone_info_list
+        from dateparser.utils import get_timezone_from_tz_string as f
+
+        probes = [_dt.datetime(1975, 1, 15, 12), _dt.datetime(2020, 1, 15, 12),
+                  _dt.datetime(2020, 7, 15, 12)]
+        known = set(pytz.all_timezones)
+
+        def written(name):
+            m = re.fullmatch(r"UTC\\([+-])(\d\d):(\d\d)", name)
+            sign, hh, mm = m.groups()
+            secs = (int(hh) * 3600 + int(mm) * 60) * (1 if sign == "+" else -1)
+            sp = [sign + hh + mm, sign + hh + ":" + mm, "UTC" + sign + hh + ":" + mm,
+                  "GMT" + sign + hh + ":" + mm, "UTC" + sign + hh + mm, "GMT" + sign + hh + mm]
+            if mm == "00":
+                sp += ["UTC" + sign + hh, "GMT" + sign + hh]
+                if hh[0] == "0":
+                    sp += ["UTC" + sign + hh[1], "GMT" + sign + hh[1]]
+            return secs, sp
+
+        def run():
+            bad, n = [], 0
+            part, parts = case["part"], tz_name_resolution.PARTS
+            if case["domain"] == "tzdb":
+                for i, name in enumerate(sorted(known)):
+                    if i % parts != part:
+                        continue
+                    n += 1
+                    try:
+                        z = f(name)
+                    except Exception as e:
+                        bad.append((name, "raised %r" % (e,)))
+                        continue
+                    ref = pytz.timezone(name)
+                    for p in probes:
+                        try:
+                            a, b = z.localize(p).utcoffset(), ref.localize(p).utcoffset()
+                        except Exception as e:
+                            a, b = repr(e), None
+                        if a != b:
+                            bad.append((name, "offset %s, tz database says %s at %s" % (a, b, p)))
+                            break
+            elif case["domain"] in ("offsets", "abbreviations"):
+                items = []
+                for gi, info in enumerate(timezone_info_list):
+                    for name, secs in info["timezones"]:
+                        if gi == 0 and case["domain"] == "offsets":
+                            want, sps = written(name)
+                            items += [(sp, {want}) for sp in sps]
+                        elif gi != 0 and case["domain"] == "abbreviations":
+                            items.append((name, None))
+                listed = {}
+                for info in timezone_info_list[1:]:
+                    for name, secs in info["timezones"]:
+                        listed.setdefault(name, set()).add(secs)
+                for i, (sp, want) in enumerate(sorted(set((a, frozenset(b) if b else None)
+                                                          for a, b in items), key=lambda t: t[0])):
+                    if i % parts != part or sp in known:
+                        continue
+                    n += 1
+                    want = set(want) if want else listed[sp]
+                    try:
+                        z = f(sp)
+                        got = z.utcoffset(probes[1])
+                    except Exception as e:
+                        bad.append((sp, "raised %r" % (e,)))
+                        continue
+                    if got is None or int(got.total_seconds()) not in want:
+                        bad.append((sp, "offset %s, written/listed %s" % (got, sorted(want))))
+            else:
+                for s in ["Nowhere/Land", "XQZT", "Mars/Olympus", "12345"]:
+                    n += 1
+                    try:
+                        z = f(s)
+                        bad.append((s, "resolved to %r" % (z,)))
+                    except pytz.UnknownTimeZoneError:
+                        pass
+                    except Exception as e:
+                        bad.append((s, "raised %r" % (e,)))
+            return n, bad[:6], len(bad)
+
+        return run, (), {}, {}
+
+    @staticmethod
+    def post(case, g, out):
+        if not out.ok:
+            return {"no-exception": False}
+        n, bad, nbad = out.value
+        clause = {"tzdb": "tz-database-key-resolves-to-that-database-zone",
+                  "offsets": "written-offset-is-the-zone's-offset",
+                  "abbreviations": "abbreviation-resolves-to-a-listed-offset",
+                  "unknown": "unknown-name-raises-UnknownTimeZoneError"}[case["domain"]]
+        return {"no-exception": True, "domain-nonempty": n > 0, clause: nbad == 0}
+
+
+class get_local_tz_fresh:
+    """FreshnessDateDataParser.get_local_tz: the process-local zone is read when it is asked for -
+    two consecutive calls under two different local zones return the first and then the second."""
+
+    name = "freshness.FreshnessDateDataParser.get_local_tz/read-at-call-time"
+    func = "dateparser.freshness_date_parser.FreshnessDateDataParser.get_local_tz"
+    props = ["C12", "C04"]
+    concrete_samples = 1
+
+    @staticmethod
+    def cases():
+        return [dict(on="singleton"), dict(on="fresh-instance")]
+
+    @staticmethod
+    def setup(inp, case):
+        import dateparser.freshness_date_parser as F
+
+        z1, z2 = object(), object()
+        seq = [z1, z2, z2]
+        F.get_localzone = lambda: seq.pop(0)
+        p = F.freshness_date_parser if case["on"] == "singleton" else F.FreshnessDateDataParser()
+
+        def run():
+            a = p.get_local_tz()
+            b = p.get_local_tz()
+            return a is z1, b is z2
+
+        return run, (), {}, {}
+
+    @staticmethod
+    def post(case, g, out):
+        if not out.ok:
+            return {"no-exception": False}
+        a, b = out.value
+        return {"no-exception": True, "first-call-returns-the-current-local-zone": a,
+                "second-call-returns-the-new-local-zone": b}
+
+
+CONTRACTS += [tz_name_resolution, get_local_tz_fresh]
